@@ -1,6 +1,8 @@
 (** * C14 (shexing half) — inverse paths leave the direct part untouched.
-    The frequency laws used (totality and transitivity of [fle]) are section
-    hypotheses; Props/C14shex.v instantiates them. *)
+    The frequency laws used (totality and transitivity of [fle] on the
+    probabilities of a class with [cnt] instances: [order_at fa cnt]) are
+    premises; Proofs/FreqOrder.v proves them for the two algebras and
+    Props/C14shex.v instantiates. *)
 From Coq Require Import List Ascii String ZArith NArith Bool Lia Permutation Sorted.
 From Shexer Require Import Lib.PyStr Lib.Dict Gen.Consts Model.Profiler Model.Tokens Model.Freq Model.Shexing.
 From Shexer Require Import Proofs.ShexBasics Proofs.SelectRel.
@@ -9,12 +11,29 @@ Import ListNotations.
 Definition is_direct (s : stmt) : bool := negb (s_inv s).
 Definition is_inverse (s : stmt) : bool := s_inv s.
 
+(** [fle] is a total preorder on the values a statement's probability can
+    take for a class with [cnt] instances *)
+Definition order_at (fa : FreqAlg) (cnt : N) : Prop :=
+  (forall p q : prob, fle fa (pval fa cnt p) (pval fa cnt q) = false ->
+                      fle fa (pval fa cnt q) (pval fa cnt p) = true) /\
+  (forall p q r : prob, fle fa (pval fa cnt p) (pval fa cnt q) = true ->
+                        fle fa (pval fa cnt q) (pval fa cnt r) = true ->
+                        fle fa (pval fa cnt p) (pval fa cnt r) = true).
+
 (** ** filtering commutes with the stable insertion sort *)
 Section SortFilter.
   Variable fa : FreqAlg.
-  Hypothesis fle_total : forall a b : F fa, fle fa a b = false -> fle fa b a = true.
-  Hypothesis fle_trans : forall a b c : F fa, fle fa a b = true -> fle fa b c = true -> fle fa a c = true.
   Variable cnt : N.
+  Hypothesis Hord : order_at fa cnt.
+
+  Lemma fle_total (x y : stmt) :
+    fle fa (pv fa cnt x) (pv fa cnt y) = false -> fle fa (pv fa cnt y) (pv fa cnt x) = true.
+  Proof. unfold pv. apply (proj1 Hord). Qed.
+
+  Lemma fle_trans (x y z : stmt) :
+    fle fa (pv fa cnt x) (pv fa cnt y) = true -> fle fa (pv fa cnt y) (pv fa cnt z) = true ->
+    fle fa (pv fa cnt x) (pv fa cnt z) = true.
+  Proof. unfold pv. apply (proj2 Hord). Qed.
 
   (** [a] may stand before [b] in a descending list *)
   Definition ge_stmt (a b : stmt) : Prop := fle fa (pv fa cnt b) (pv fa cnt a) = true.
@@ -177,18 +196,17 @@ Qed.
 
 Section Inverse.
   Variable fa : FreqAlg.
-  Hypothesis fle_total : forall a b : F fa, fle fa a b = false -> fle fa b a = true.
-  Hypothesis fle_trans : forall a b c : F fa, fle fa a b = true -> fle fa b c = true -> fle fa a c = true.
 
   (** the direct (resp. inverse) part of a tuned list is the tuned direct
       (resp. inverse) part *)
   Lemma tune_filter cfg cnt (p : stmt -> bool) v st :
+    order_at fa cnt ->
     (forall s, p (post1 cfg s) = p s) ->
     (forall x y, relax fa cfg cnt x = inl y -> p y = p x) ->
     tune fa cfg cnt v = inl st -> tune fa cfg cnt (filter p v) = inl (filter p st).
   Proof.
-    intros Hpost Hrel. rewrite !tune_eq.
-    rewrite <- (filter_sort_desc fa fle_total fle_trans cnt p v).
+    intros Hord Hpost Hrel. rewrite !tune_eq.
+    rewrite <- (filter_sort_desc fa cnt Hord p v).
     generalize (sort_desc fa cnt v). intros l.
     destruct (relax_phase fa cfg cnt l) as [l1|e] eqn:E; simpl; [|discriminate].
     intros H; inversion H; subst.
@@ -205,34 +223,35 @@ Section Inverse.
   Variable ce : str * centry.
 
   Let cnt := class_cnt counts ce.
+  Hypothesis Hord : order_at fa cnt.
   Let D := base_statements fa thr cnt false (c_direct (snd ce)).
   Let I := base_statements fa thr cnt true (c_inverse (snd ce)).
 
   Lemma sorted_true_direct :
     filter is_direct (class_sorted fa (with_inverse true cfg) thr counts ce) = sort_desc fa cnt D.
   Proof.
-    unfold class_sorted; simpl. rewrite (filter_sort_desc fa fle_total fle_trans).
+    unfold class_sorted; simpl. rewrite (filter_sort_desc fa _ Hord).
     fold cnt D I. rewrite filter_direct_app; [reflexivity | apply base_statements_dir | apply base_statements_dir].
   Qed.
 
   Lemma sorted_true_inverse :
     filter is_inverse (class_sorted fa (with_inverse true cfg) thr counts ce) = sort_desc fa cnt I.
   Proof.
-    unfold class_sorted; simpl. rewrite (filter_sort_desc fa fle_total fle_trans).
+    unfold class_sorted; simpl. rewrite (filter_sort_desc fa _ Hord).
     fold cnt D I. rewrite filter_inverse_app; [reflexivity | apply base_statements_dir | apply base_statements_dir].
   Qed.
 
   Lemma sorted_false_direct :
     filter is_direct (class_sorted fa (with_inverse false cfg) thr counts ce) = sort_desc fa cnt D.
   Proof.
-    unfold class_sorted; simpl. rewrite (filter_sort_desc fa fle_total fle_trans).
+    unfold class_sorted; simpl. rewrite (filter_sort_desc fa _ Hord).
     fold cnt D. rewrite filter_direct_app; [reflexivity | apply base_statements_dir | constructor].
   Qed.
 
   Lemma sorted_false_inverse :
     filter is_inverse (class_sorted fa (with_inverse false cfg) thr counts ce) = [].
   Proof.
-    unfold class_sorted; simpl. rewrite (filter_sort_desc fa fle_total fle_trans).
+    unfold class_sorted; simpl. rewrite (filter_sort_desc fa _ Hord).
     fold cnt D. rewrite filter_inverse_app; [reflexivity | apply base_statements_dir | constructor].
   Qed.
 
@@ -280,7 +299,7 @@ Section Inverse.
     assert (Hvi : Forall (fun s => s_inv s = true) vi).
     { eapply select_valid_dir; [|exact Ei]. apply sort_desc_Forall, base_statements_dir. }
     pose proof (tune_filter cfg cnt is_direct (vd ++ vi) st) as Hf.
-    rewrite (filter_direct_app vd vi Hvd Hvi) in Hf. rewrite Hf; [| |  |exact Et].
+    rewrite (filter_direct_app vd vi Hvd Hvi) in Hf. rewrite Hf; [|exact Hord| | |exact Et].
     - eexists. split; [reflexivity|]. simpl. repeat split.
     - intros s. unfold is_direct. rewrite post1_dir. reflexivity.
     - intros x y Hxy. unfold is_direct. rewrite (relax_dir _ _ _ _ _ Hxy). reflexivity.
@@ -302,7 +321,7 @@ Section Inverse.
     assert (Hvi : Forall (fun s => s_inv s = true) vi).
     { eapply select_valid_dir; [|exact Ei]. apply sort_desc_Forall, base_statements_dir. }
     pose proof (tune_filter cfg cnt is_inverse (vd ++ vi) st) as Hf.
-    rewrite (filter_inverse_app vd vi Hvd Hvi) in Hf. simpl. apply Hf; [| |exact Et].
+    rewrite (filter_inverse_app vd vi Hvd Hvi) in Hf. simpl. apply Hf; [exact Hord| | |exact Et].
     - intros s. unfold is_inverse. apply post1_dir.
     - intros x y Hxy. unfold is_inverse. apply (relax_dir _ _ _ _ _ Hxy).
   Qed.
@@ -376,17 +395,16 @@ Qed.
 
 Section Inverse2.
   Variable fa : FreqAlg.
-  Hypothesis fle_total : forall a b : F fa, fle fa a b = false -> fle fa b a = true.
-  Hypothesis fle_trans : forall a b c : F fa, fle fa a b = true -> fle fa b c = true -> fle fa a c = true.
 
   Theorem I2_inverse_part cfg thr counts ce sh_t :
+    order_at fa (class_cnt counts ce) ->
     shex_class fa (with_inverse true cfg) thr counts ce = inl sh_t ->
     exists sh', shex_class fa (with_inverse false cfg) thr counts (swap_entry ce) = inl sh' /\
                 filter is_inverse (sh_stmts sh_t) = map set_inv (sh_stmts sh').
   Proof.
-    intros H.
-    destruct (inverse_part fa fle_total fle_trans cfg thr counts ce sh_t H) as (vi & Evi & Et).
-    rewrite (shex_class_inverse_false fa fle_total fle_trans).
+    intros Hord H.
+    destruct (inverse_part fa cfg thr counts ce Hord sh_t H) as (vi & Evi & Et).
+    rewrite (shex_class_inverse_false fa cfg thr counts (swap_entry ce) Hord).
     change (class_cnt counts (swap_entry ce)) with (class_cnt counts ce).
     change (c_direct (snd (swap_entry ce))) with (c_inverse (snd ce)).
     set (cnt := class_cnt counts ce) in *.
